@@ -16,14 +16,17 @@ from deap.tools import support
 
 ANCHORS = [("deap/tools/support.py", ["Statistics", "MultiStatistics", "Logbook", "identity"])]
 LEVEL = "proof"
-RULE = ("fixed witnesses of the repaired defects (F3, F4, F5, F12); enumeration of operation sequences over {record, stream, "
+RULE = ("fixed witnesses of the repaired defects (F3, F4, F5, F12); fixed logbooks whose print exercises every part of __txt__; "
+        "the Python string functions of the text model one by one (format of ints / None / str / doubles incl. ties of the sixth digit, any bit pattern, "
+        "inf, nan; center, ljust, expandtabs); histories with a pickle round trip (protocols 0..5) continued on the copy AND on the original in turn; "
+        "histories over non-uniform chapter sets with str() everywhere (text or raise, model against implementation only); enumeration of operation sequences over {record, stream, "
         "pop(), pop(-1), del[0], del[-1], del[0:2], del[::-2], select, pickle} (plus `chapters[..].stream` when there is a chapter) "
         "followed by a final stream, in three configurations: no chapter, one chapter, one chapter holding a sub-chapter (one op "
         "shorter) - quick: all sequences of length <= 3 and a RANDOM HALF of those of length 4; thorough: all of length <= 5; "
         "statistics: 1..3 statistics objects x key functions (identity default, len, item0, last, sum, tuple-valued fit1/fit2) x data given as list / tuple of live objects, as a sequence or generator of short-lived objects, as a 2-D numpy array x "
         "14 functions with 0..2 frozen positional and keyword arguments, re-registration, objects sharing one key function object "
         "and the same field names, compile -> record pipelines; random histories of length <= 12 over records with 0..3 chapters: "
-        "sub-chapters, optional fields, None / float / str valued fields, colliding keys, records WITHOUT scalar fields, the same "
+        "sub-chapters, optional fields, None / float (dyadic, decimal, extreme) / str (spaces, tabs, empty) valued fields, colliding keys, records WITHOUT scalar fields, the same "
         "dict object handed to several record() calls, dict / OrderedDict / defaultdict values, non-uniform chapter sets, "
         "positive/negative/out-of-range indices, slices with steps +-1,+-2,+-3, select with repeated names, streams of single "
         "chapters and sub-chapters, explicit/default headers, log_header, pickle protocols 0..5. "
@@ -31,22 +34,28 @@ RULE = ("fixed witnesses of the repaired defects (F3, F4, F5, F12); enumeration 
         "a frozen argument or more than one function")
 EXHAUSTIVE = {"quick": False, "thorough": False}
 TIME_BUDGET = {"quick": 60, "thorough": 900}
-TRUSTED = ["the text parser of this module (which record ids and whether a header line occur in the streamed text): "
-           "every record carries a unique id field `rid` >= 100000, all other values are < 100000; a header line is a line "
-           "with a cell equal to the column name `rid`",
+TRUSTED = ["the text parser of this module, used by the ORACLE only (which record ids and whether a header line occur in the streamed "
+           "text): every record carries a unique id field `rid` >= 100000, no other cell is an all-digit number >= 100000; a header "
+           "line is a line with a cell equal to the column name `rid`",
+           "the text itself is compared VERBATIM with the model's (`x=` field, injective escaping), after every stream / str() / chapter "
+           "stream, together with every `columns_len` (`w=` field); CPython's str.format / '{0:n}' in the C locale (the harness never "
+           "calls setlocale), str.center, str.expandtabs, len are what the model's Val.format / center / expandtabsLen transcribe",
            "CPython list / dict / defaultdict / pickle semantics (list.pop, slice.indices, dict.update); the index list of a "
            "slice is computed by Python and handed to the model",
-           "column formatting of the printed text is not modelled (only which rows and whether a header are emitted)"]
+           "strings never contain a newline (the text is returned as ONE string joined by newlines)"]
 ASSUMPTIONS = ["chapter alignment (at every depth) is demanded for logbooks all of whose records carry the same chapter names at "
                "every level (DESIGN section 6); integer indices out of range must raise and change nothing; pop / del on a "
                "logbook whose chapters are misaligned by construction (records with differing chapter names) only compare "
                "model and implementation, and the oracle stops for the rest of that history",
                "the header is counted over the texts returned by `logbook.stream` (str(logbook) prints its header every time, by design)"]
-EXPLANATION = ("Theorems C18.* are proved over all histories of the model Core/Logbook.lean (no length bound); the correspondence "
-               "compares, after every operation of a history, the complete observable state (rows, buffindex, every chapter "
-               "recursively, header settings) and the operation's result; the oracle re-derives the expected logbook from the "
-               "statement with plain Python list semantics. Pickling has no Lean theorem (the model's pickle is the identity on the "
-               "state): it is established by this correspondence only.")
+EXPLANATION = ("Theorems C18.* are proved over all histories of the model Core/Logbook.lean (no length bound) and, for the text, of "
+               "Core/LogbookText.lean (the complete __txt__ with columns_len as state); the correspondence compares, after every operation "
+               "of a history, the complete observable state (rows, buffindex, every chapter recursively, header settings, every "
+               "columns_len), the operation's result and, for stream / str() / chapter streams, the returned text character for "
+               "character; the oracle re-derives the expected logbook from the statement with plain Python list semantics. Pickling "
+               "is the identity on the model state (C18.pickle_transparent says what that implies); that the real pickle restores "
+               "the whole state is established by this correspondence: after a round trip under every protocol the history goes on "
+               "on the copy and on the original, both compared with the model and checked by the oracle.")
 
 Logbook = tools.Logbook
 
@@ -69,17 +78,84 @@ def is_dict(v):
     return isinstance(v, dict)
 
 
-# scalar values other than integers travel as reserved integer codes (the model never computes on values)
+# scalar values other than integers travel as reserved integer codes (the model never computes on values); the
+# code book of a history (code -> Python value) travels with the protocol line as `V:` definitions, so that the
+# model can render the very text.  The first six codes are fixed, further values get the next free code.
 VALCODES = [(None, 900001), (2.5, 900002), (-0.5, 900003), ("ab", 900004), ("x", 900005), (1e+20, 900006)]
+
+
+def val_key(v):
+    if v is None:
+        return ("n",)
+    if isinstance(v, float):
+        return ("f", v.hex())
+    if isinstance(v, str):
+        return ("s", v)
+    return None
+
+
+class Book(object):
+    """code book of one history"""
+
+    def __init__(self):
+        self.codes = dict((val_key(v), c) for v, c in VALCODES)
+        self.values = dict((c, v) for v, c in VALCODES)
+        self.used = set()
+
+    def code(self, v):
+        k = val_key(v)
+        if k is None:
+            return None
+        if k not in self.codes:
+            c = 900001 + len(self.codes)
+            self.codes[k] = c
+            self.values[c] = v
+        self.used.add(self.codes[k])
+        return self.codes[k]
+
+
+_BOOK = [Book()]
+
+
+def cps(text):
+    return ".".join(str(ord(ch)) for ch in text)
+
+
+def val_tok(v):
+    """protocol token of a non-integer value: None, a string by its code points, a double by its exact ratio"""
+    if v is None:
+        return "n"
+    if isinstance(v, str):
+        return "s" + cps(v)
+    if v != v:
+        return "fnan"
+    if v in (float("inf"), float("-inf")):
+        return "finf" if v > 0 else "f-inf"
+    num, den = abs(v).as_integer_ratio()
+    import math
+    return "f%s%d/%d" % ("-" if math.copysign(1.0, v) < 0 else "+", num, den)
+
+
+def defs_toks(book):
+    """the definitions a `hist` line starts with: the string of every name, the value behind every reserved code"""
+    names = ["N:%d=%s" % (NUM[n], cps(n)) for n in sorted(NUM, key=NUM.get)]
+    vals = ["V:%d=%s" % (c, val_tok(book.values[c])) for c in sorted(book.used)]
+    return names + vals
+
+
+def esc(text):
+    """the injective one-line escaping of a text the driver uses"""
+    return text.replace("\\", "\\\\").replace(" ", "\\s").replace("\t", "\\t").replace("\n", "\\n")
 
 
 def enc_val(v):
     if isinstance(v, numbers.Integral) and not isinstance(v, (bool, numpy.bool_)):
         return int(v)
-    for val, code in VALCODES:
-        if type(val) is type(v) and val == v:
-            return code
-    return None
+    if isinstance(v, numpy.floating):
+        v = float(v)
+    if isinstance(v, (bool, numpy.bool_)):
+        return None
+    return _BOOK[0].code(v)
 
 
 def enc_items(e):
@@ -120,6 +196,14 @@ def dump(lb):
 def dump_state(lb):
     hdr = "none" if lb.header is None else (",".join(str(NUM[n]) for n in lb.header) or "-")
     return "%s;%s;%d;%d" % (dump(lb), hdr, 1 if lb.log_header else 0, 1 if getattr(lb, "header_streamed", False) else 0)
+
+
+def dump_cl(lb):
+    """the `columns_len` of a logbook and, recursively, of its chapters"""
+    cl = getattr(lb, "columns_len", None)
+    own = "N" if cl is None else (",".join(str(x) for x in cl) or "-")
+    chs = sorted(lb.chapters.items(), key=lambda kv: NUM.get(kv[0], 99))
+    return "[%s:%s]" % (own, "".join("%d%s" % (NUM.get(k, 99), dump_cl(ch)) for k, ch in chs) or "-")
 
 
 def show_col(col):
@@ -326,39 +410,66 @@ def expected_at(entries, path):
 # evaluation of a history on the real Logbook
 # ------------------------------------------------------------------------------------------------
 
-def run_history(ops):
-    """returns (protocol tokens, expected answers per op, oracle message or None, f5 message or None, stats)"""
-    log = Logbook()
-    toks, answers = [], []
-    failure = [None]
-    f5 = [None]
-    header_ops = []
-    delivered = {}
-    pl = plan(ops)
-    sh = Shadow()           # the same walk again, but advanced in step with the real object
+class Hist(object):
+    """One logbook driven through a history: the real object, the protocol tokens, the implementation's canonical
+    answers, and the statement evaluated after every operation (the oracle)."""
 
-    def fail(msg):
-        if failure[0] is None:
-            failure[0] = msg
+    def __init__(self):
+        self.log = Logbook()
+        self.toks, self.answers = [], []
+        self.failure = None
+        self.f5 = None
+        self.header_ops = []
+        self.delivered = {}
+        self.sh = Shadow()          # the walk of `plan` again, advanced in step with the real object
+        self.n_stream = 0
+        self.pool = {}              # shared dictionary OBJECTS: the same dict handed to several record() calls
+        self.cdelivered = {}        # chapter path -> rid -> times delivered by that chapter's own stream
+        self.cheaders = {}
 
-    n_stream = 0
-    pool = {}               # shared dictionary OBJECTS: the same dict handed to several record() calls
-    cdelivered = {}         # chapter path -> rid -> times delivered by that chapter's own stream
-    cheaders = {}
+    def fork(self, proto):
+        """the history continues on an unpickled copy (returned) AND on the original (self)"""
+        other = Hist()
+        other.log = pickle.loads(pickle.dumps(self.log, proto))
+        other.toks, other.answers = list(self.toks), list(self.answers)
+        other.failure, other.f5 = self.failure, self.f5
+        other.header_ops = list(self.header_ops)
+        other.delivered = dict(self.delivered)
+        other.sh = copy.deepcopy(self.sh)
+        other.n_stream = self.n_stream
+        other.pool = self.pool
+        other.cdelivered = copy.deepcopy(self.cdelivered)
+        other.cheaders = dict(self.cheaders)
+        return other
 
-    def top_tok(r):
+    def fail(self, msg):
+        if self.failure is None:
+            self.failure = msg
+
+    def top_tok(self, r):
         """what the model shows for a delivered row: its top-level record id, `?` when the record has none"""
-        for e in sh.ever:
+        for e in self.sh.ever:
             if rid_of(e) == r:
                 return str(r) if "rid" in e else "?"
         return str(r)
 
-    for j, op in enumerate(ops):
-        k = op[0]
-        executed = pl[j][0]
+    def chapter(self, path):
+        ch = self.log
+        for c in path:
+            ch = ch.chapters.get(c) if isinstance(ch, Logbook) and c in ch.chapters else None
+            if ch is None:
+                break
+        return ch
+
+    def step(self, j, op, executed, keep_original=False):
         if not executed:
-            continue
+            return
+        log, sh, fail = self.log, self.sh, self.fail
+        toks = self.toks
+        k = op[0]
         obs = "-"
+        text = None
+        raised = False
         checks = not sh.lost
         if k == "rec":
             e = op[1]
@@ -369,9 +480,9 @@ def run_history(ops):
                 if is_dict(v) and opts.get("shared") is not None and key in opts.get("shared_keys", []):
                     # the caller passes the very same dict object to several record() calls
                     pk = (opts["shared"], key)
-                    if pk not in pool:
-                        pool[pk] = to_py(copy.deepcopy(v), opts.get("cls"))
-                    kwargs[key] = pool[pk]
+                    if pk not in self.pool:
+                        self.pool[pk] = to_py(copy.deepcopy(v), opts.get("cls"))
+                    kwargs[key] = self.pool[pk]
                 else:
                     kwargs[key] = to_py(copy.deepcopy(v), opts.get("cls"))
             log.record(**kwargs)
@@ -379,11 +490,7 @@ def run_history(ops):
         elif k == "sel":
             path, names = op[1], op[2]
             toks.append("L:%s:%s" % (".".join(str(NUM[c]) for c in path) or "-", ",".join(str(NUM[n]) for n in names) or "-"))
-            ch = log
-            for c in path:
-                ch = ch.chapters.get(c) if isinstance(ch, Logbook) and c in ch.chapters else None
-                if ch is None:
-                    break
+            ch = self.chapter(path)
             if ch is None:
                 obs = "nopath"
             else:
@@ -405,7 +512,7 @@ def run_history(ops):
             toks.append("S" if k == "stream" else "P")
             text = log.stream if k == "stream" else str(log)
             h, rids, consistent = parse_text(text)
-            obs = "t%d:%s" % (h, ",".join(top_tok(r) for r in rids) or "-")
+            obs = "t%d:%s" % (h, ",".join(self.top_tok(r) for r in rids) or "-")
             surviving = [rid_of(e) for e in sh.entries]
             if not consistent:
                 fail("op %d: a printed line mixes different records (chapter columns out of step): %r" % (j, text))
@@ -415,7 +522,8 @@ def run_history(ops):
                 if rids != surviving:
                     fail("op %d: str() shows records %r, the logbook holds %r" % (j, rids, surviving))
             else:
-                n_stream += 1
+                self.n_stream += 1
+                delivered = self.delivered
                 for r in rids:
                     delivered[r] = delivered.get(r, 0) + 1
                     if delivered[r] > 1:
@@ -429,18 +537,21 @@ def run_history(ops):
                 if [r for r in surviving if r in rids] != rids:
                     fail("op %d: stream delivered %r out of order" % (j, rids))
                 if h >= 1:
-                    header_ops.append(j)
-                    if len(header_ops) >= 2 and f5[0] is None:
-                        f5[0] = "header delivered twice: the streams at ops #%d and #%d both carried a header" % (header_ops[-2], j)
-                        fail(f5[0])
+                    self.header_ops.append(j)
+                    if len(self.header_ops) >= 2 and self.f5 is None:
+                        self.f5 = "header delivered twice: the streams at ops #%d and #%d both carried a header" % (self.header_ops[-2], j)
+                        fail(self.f5)
+        elif k == "rstr":
+            # str() of a logbook that need not be aligned: model against implementation only (text, or that it raises)
+            toks.append("Q")
+            try:
+                text = str(log)
+            except (IndexError, ValueError):
+                raised = True
         elif k == "cstream":
             path = op[1]
             toks.append("C:%s" % ".".join(str(NUM[c]) for c in path))
-            ch = log
-            for c in path:
-                ch = ch.chapters.get(c) if isinstance(ch, Logbook) and c in ch.chapters else None
-                if ch is None:
-                    break
+            ch = self.chapter(path)
             if ch is None:
                 obs = "nopath"
             else:
@@ -449,7 +560,7 @@ def run_history(ops):
                 obs = "t%d:%s" % (h, ",".join(str(r) for r in rids) or "-")
                 surviving = [rid_of(e) for e in sh.entries]
                 key = tuple(path)
-                dl = cdelivered.setdefault(key, {})
+                dl = self.cdelivered.setdefault(key, {})
                 if not consistent:
                     fail("op %d: a line of the chapter stream mixes different records: %r" % (j, text))
                 if h > 1:
@@ -466,8 +577,8 @@ def run_history(ops):
                 if [r for r in surviving if r in rids] != rids:
                     fail("op %d: chapter %s delivered %r out of order" % (j, "/".join(path), rids))
                 if h >= 1:
-                    cheaders[key] = cheaders.get(key, 0) + 1
-                    if cheaders[key] > 1:
+                    self.cheaders[key] = self.cheaders.get(key, 0) + 1
+                    if self.cheaders[key] > 1:
                         fail("op %d: chapter %s delivered its header a second time" % (j, "/".join(path)))
         elif k == "pop":
             i = op[1]
@@ -528,6 +639,7 @@ def run_history(ops):
         elif k == "pickle":
             toks.append("K")
             before = dump_state(log)
+            before_cl = dump_cl(log)
             new = pickle.loads(pickle.dumps(log, op[1]))
             if new is log or type(new) is not Logbook:
                 fail("op %d: unpickling did not give a new Logbook" % j)
@@ -538,7 +650,10 @@ def run_history(ops):
                     return all(type(c) is Logbook and all_logbooks(c) for c in lb.chapters.values())
                 if not all_logbooks(new):
                     fail("op %d: a chapter of the unpickled logbook is not a Logbook" % j)
-            log = new
+            if dump_state(log) != before or dump_cl(log) != before_cl:
+                fail("op %d: pickling changed the pickled logbook itself: %s, before %s" % (j, dump_state(log), before))
+            if not keep_original:
+                log = self.log = new
         elif k == "hdr":
             toks.append("H:%s" % ("none" if op[1] is None else (",".join(str(NUM[n]) for n in op[1]) or "-")))
             log.header = None if op[1] is None else list(op[1])
@@ -547,7 +662,7 @@ def run_history(ops):
             log.log_header = bool(op[1])
         else:
             raise ValueError(k)
-        answers.append("%s;%s" % (obs, dump_state(log)))
+        self.answers.append("%s;%s;w=%s%s" % (obs, dump_state(log), dump_cl(log), ";x!" if raised else "" if text is None else ";x=" + esc(text)))
         # the statement, after every operation
         if not sh.lost:
             if list(log) != expected_rows(sh.entries):
@@ -557,7 +672,48 @@ def run_history(ops):
                 m = check_chapters(log, sh.entries, sh.deep_checked(), sh.chapters())
                 if m:
                     fail("op %d (%s): %s" % (j, k, m))
-    return toks, answers, failure[0], f5[0]
+
+
+def run_history(ops):
+    """returns (protocol tokens incl. the definitions, expected answers per op, oracle message or None, f5 message or None)"""
+    _BOOK[0] = Book()
+    pl = plan(ops)
+    h = Hist()
+    for j, op in enumerate(ops):
+        h.step(j, op, pl[j][0])
+    return (defs_toks(_BOOK[0]) + h.toks) if h.toks else [], h.answers, h.failure, h.f5
+
+
+def run_fork(prefix, proto, a, b):
+    """prefix; pickle round trip; then history `a` on the ORIGINAL object and history `b` on the unpickled COPY,
+    operation by operation in turn (a shared mutable part would let one branch disturb the other).
+    Returns the two protocol lines' tokens, the two answer lists, the first oracle message."""
+    _BOOK[0] = Book()
+    ops_a = list(prefix) + [["pickle", proto]] + list(a) + [["stream"]]
+    ops_b = list(prefix) + [["pickle", proto]] + list(b) + [["stream"]]
+    pl_a, pl_b = plan(ops_a), plan(ops_b)
+    ha = Hist()
+    for j in range(len(prefix)):
+        ha.step(j, ops_a[j], pl_a[j][0])
+    hb = ha.fork(proto)
+    n = len(prefix)
+    ha.step(n, ops_a[n], pl_a[n][0], keep_original=True)
+    hb.toks.append("K")
+    hb.answers.append("-;%s;w=%s" % (dump_state(hb.log), dump_cl(hb.log)))
+    if type(hb.log) is not Logbook or hb.log is ha.log:
+        hb.fail("op %d: unpickling did not give a new Logbook" % n)
+    for t in range(n + 1, max(len(ops_a), len(ops_b))):
+        if t < len(ops_a):
+            ha.step(t, ops_a[t], pl_a[t][0])
+        if t < len(ops_b):
+            hb.step(t, ops_b[t], pl_b[t][0])
+    defs = defs_toks(_BOOK[0])
+    msg = None
+    if ha.failure or ha.f5:
+        msg = "on the original after pickling: %s" % (ha.failure or ha.f5)
+    elif hb.failure or hb.f5:
+        msg = "on the unpickled copy: %s" % (hb.failure or hb.f5)
+    return defs + ha.toks, ha.answers, defs + hb.toks, hb.answers, msg
 
 
 # ------------------------------------------------------------------------------------------------
@@ -823,6 +979,40 @@ def eval_multi(d):
 
 
 # ------------------------------------------------------------------------------------------------
+# pickling in the middle of a history: the history goes on on the copy and on the original
+# ------------------------------------------------------------------------------------------------
+
+def eval_fork(d):
+    ta, aa, tb, ab, msg = run_fork(d["prefix"], d["proto"], d["a"], d["b"])
+    nrec = sum(1 for op in d["prefix"] if op[0] == "rec")
+    chap = max([len(dict_keys(op[1])) for op in d["prefix"] + d["a"] + d["b"] if op[0] == "rec"] or [0])
+    return Case(d, ["C18 hist " + " ".join(ta), "C18 hist " + " ".join(tb)], [" | ".join(aa), " | ".join(ab)], msg,
+                tag="fork/proto=%d/chapters=%d" % (d["proto"], chap), nontrivial=nrec > 0)
+
+
+# ------------------------------------------------------------------------------------------------
+# the Python string functions the text model uses, one by one ("glue is where the bugs are")
+# ------------------------------------------------------------------------------------------------
+
+def eval_pyfmt(d):
+    f = d["f"]
+    if f == "val":
+        v = d["v"]
+        if isinstance(v, list):          # ["f", hex] : a double that JSON cannot carry (inf, nan) or must carry exactly
+            v = float.fromhex(v[1]) if v[0] == "f" else v[1]
+        got = ("{0:n}" if isinstance(v, float) else "{0}").format(v)
+        return Case(d, ["C18 fmtval %s" % (("i%d" % v) if isinstance(v, int) else val_tok(v))], [esc(got)], None, tag="pyfmt/val", nontrivial=True)
+    if f == "center":
+        return Case(d, ["C18 center %s %d" % (cps(d["s"]), d["w"])], [esc(d["s"].center(d["w"]))], None, tag="pyfmt/center", nontrivial=True)
+    if f == "ljust":
+        return Case(d, ["C18 ljust %s %d" % (cps(d["s"]), d["w"])], [esc(("{0:<%d}" % d["w"]).format(d["s"]))],
+                    None, tag="pyfmt/ljust", nontrivial=True)
+    if f == "etlen":
+        return Case(d, ["C18 etlen %s" % cps(d["s"])], [str(len(d["s"].expandtabs()))], None, tag="pyfmt/expandtabs", nontrivial=True)
+    raise ValueError(f)
+
+
+# ------------------------------------------------------------------------------------------------
 # evaluate
 # ------------------------------------------------------------------------------------------------
 
@@ -832,6 +1022,10 @@ def evaluate(d):
         return eval_stats(d)
     if k == "multi":
         return eval_multi(d)
+    if k == "fork":
+        return eval_fork(d)
+    if k == "pyfmt":
+        return eval_pyfmt(d)
     if k != "hist":
         raise ValueError(k)
     ops = d["ops"]
@@ -865,9 +1059,37 @@ def evaluate(d):
 # generation
 # ------------------------------------------------------------------------------------------------
 
+STR_ALPHABET = "abxyz_ -\t\u00e9\u65e5"     # no letter of `rid` (the oracle's text parser looks for that cell), no newline; two non-ASCII code points
+
+
+def rand_str(rng, maxlen=7):
+    return "".join(rng.choice(STR_ALPHABET) for _ in range(rng.randint(0, maxlen)))
+
+
+def rand_float(rng):
+    r = rng.random()
+    if r < 0.5:
+        return rng.randint(-2 ** 20, 2 ** 20) / float(2 ** rng.randint(0, 12))      # dyadic, few digits
+    if r < 0.8:
+        return round(rng.uniform(-1, 1) * 10.0 ** rng.randint(-7, 9), rng.randint(0, 8))
+    return rng.choice([0.0, -0.0, 1e-7, 123456.5, 999999.5, 1e6, 0.1, 1.0 / 3, -2.0 / 3, 1e-4, 1e-5, 99999.95, 5e-324, 1.7e308])
+
+
+def looks_like_rid(x):
+    """the oracle's text parser takes an all-digit cell >= 100000 for a record id: such a float is entered negated"""
+    c = "{0:n}".format(x)
+    return c.isdigit() and int(c) >= 100000
+
+
 def val(rng):
-    if rng.random() < 0.12:
+    r = rng.random()
+    if r < 0.10:
         return rng.choice([None, 2.5, -0.5, "ab", "x", 1e+20])     # None-valued, float and str fields
+    if r < 0.16:
+        x = rand_float(rng)
+        return -x if looks_like_rid(x) else x
+    if r < 0.20:
+        return rand_str(rng)
     return rng.randint(-9, 99)
 
 
@@ -1025,6 +1247,33 @@ def rand_history(rng, length, perturb=0.0, nch=None, sub=None, oob=0.08):
 EXH_OPS = ["rec", "stream", "pop0", "pop-1", "del0", "del-1", "dels02", "dels-2", "sel", "pickle"]
 
 
+def text_witnesses():
+    def rec(i, **kw):
+        e = {"rid": 100001 + i, "gen": i}
+        e.update(kw)
+        return ["rec", e]
+    out = []
+    # two chapters, one with a sub-chapter; printed, grown, printed again (the widths are state)
+    h = [rec(0, fit={"max": 7, "avg": 2.5, "s1": {"q": 1}}, size={"min": None}),
+         rec(1, fit={"max": 1234567.0, "avg": -0.5, "s1": {"q": "ab"}}, size={"min": 3}),
+         ["stream"], ["str"],
+         rec(2, fit={"max": 1e-05, "avg": -100000.5, "s1": {"q": "a\tb"}}, size={"min": "a longer cell"}),
+         ["stream"], ["str"], ["cstream", ["fit"]], ["cstream", ["fit", "s1"]], ["pickle", 2], ["str"],
+         ["del", 0], ["str"], ["stream"]]
+    out.append(h)
+    # log_header off on the logbook / explicit headers: unknown column, chapter twice, chapter only
+    out.append([["lh", False], rec(0, fit={"max": 1}), ["stream"], rec(1, fit={"max": 22}), ["lh", True], ["stream"], ["str"]])
+    out.append([rec(0, a=5, fit={"max": 1}), rec(1, fit={"max": 333}), ["hdr", ["gen", "q", "fit", "rid", "fit"]], ["str"],
+                ["hdr", ["fit"]], ["str"], ["hdr", []], ["str"], ["hdr", None], ["stream"]])
+    # the header is printed by str() every time and by the stream once; pops in between
+    out.append([rec(0), ["str"], ["stream"], rec(1, a="x"), ["pop", 0], ["str"], ["stream"], rec(2), ["stream"], ["str"]])
+    # records without scalar fields
+    out.append([["rec", {"fit": {"rid": 100001, "max": 3}}], ["str"], ["rec", {"fit": {"rid": 100002}}], ["stream"]])
+    for ops in out:
+        yield {"k": "hist", "ops": ops + [["stream"]]}
+
+
+
 def exh_history(seq, chapter):
     ops, rid = [], 100001
     for s in seq:
@@ -1157,6 +1406,77 @@ def rand_multi(rng, pipeline):
     return d
 
 
+def rand_double(rng):
+    import struct
+    r = rng.random()
+    if r < 0.3:
+        return struct.unpack("<d", struct.pack("<Q", rng.getrandbits(64)))[0]       # any bit pattern (inf, nan, subnormals)
+    if r < 0.55:
+        # a tie of the sixth significant digit, and its neighbours: (m + 1/2) * 10^k, exact for small k
+        m = rng.randint(100000, 999999)
+        k = rng.randint(-3, 6)
+        x = (2 * m + 1) * 10.0 ** k / 2
+        return rng.choice([x, x, -x, x * (1 + 2.0 ** -52), x * (1 - 2.0 ** -53)])
+    if r < 0.7:
+        return float(rng.choice([1, -1]) * 10.0 ** rng.randint(-8, 22))
+    if r < 0.8:
+        return float(rng.randint(-10 ** 7, 10 ** 7))
+    return rand_float(rng)
+
+
+def rand_pyfmt(rng, i):
+    r = i % 4
+    if r == 0:
+        q = rng.random()
+        if q < 0.7:
+            x = rand_double(rng)
+            return {"k": "pyfmt", "f": "val", "v": ["f", x.hex()]}
+        if q < 0.8:
+            return {"k": "pyfmt", "f": "val", "v": rng.choice([0, -1, 7, 10 ** 30, -10 ** 19, rng.randint(-10 ** 9, 10 ** 9)])}
+        if q < 0.85:
+            return {"k": "pyfmt", "f": "val", "v": None}
+        return {"k": "pyfmt", "f": "val", "v": ["s", rand_str(rng, 9)]}
+    alphabet = STR_ALPHABET + ("\n\r" if r == 3 else "")
+    text = "".join(rng.choice(alphabet) for _ in range(rng.randint(0, 12)))
+    if r == 1:
+        return {"k": "pyfmt", "f": "center", "s": text.replace("\t", "t"), "w": rng.randint(0, 16)}
+    if r == 2:
+        return {"k": "pyfmt", "f": "ljust", "s": text, "w": rng.randint(0, 16)}
+    return {"k": "pyfmt", "f": "etlen", "s": text}
+
+
+def rand_raw(rng):
+    """a history over NON-uniform chapter sets (chapters of different lengths) with str() everywhere: the printed
+    text, or that printing raises, and the `columns_len` left behind are compared with the model (no oracle clause)"""
+    h = rand_history(rng, rng.choice([4, 6, 9, 12]), perturb=0.5, nch=rng.choice([1, 2, 3]), sub=(rng.random() < 0.3))
+    ops = []
+    for op in h["ops"]:
+        ops.append(["rstr"] if op[0] == "str" else op)
+        if rng.random() < 0.35:
+            ops.append(["rstr"])
+    return {"k": "hist", "ops": ops + [["rstr"]]}
+
+
+def rand_fork(rng):
+    """a history, a pickle round trip (any protocol), and two continuations: one for the original, one for the copy"""
+    sc_seed = rng.getrandbits(32)
+    import random as _random
+    h = rand_history(_random.Random(sc_seed), rng.choice([4, 6, 9, 12]), sub=(rng.random() < 0.2))
+    ops = h["ops"][:-1]
+    if len(ops) < 2:
+        cut = len(ops)
+    else:
+        cut = rng.randint(1, len(ops))
+    prefix, rest = ops[:cut], ops[cut:]
+    # the second continuation: the same operations in another order, or another tail of the same history generator
+    other = list(rest)
+    rng.shuffle(other)
+    if rng.random() < 0.5:
+        other = other[:rng.randint(0, len(other))]          # (every record keeps its own id: nothing is repeated)
+        other.insert(rng.randint(0, len(other)), rng.choice([["stream"], ["str"], ["pop", -1], ["dels", [None, None, 2]]]))
+    return {"k": "fork", "prefix": prefix, "proto": rng.choice([0, 1, 2, 3, 4, 5]), "a": rest, "b": other}
+
+
 def generate(tier, rng, mult):
     thorough = tier == "thorough"
     # corpus-like fixed histories: the witnesses of the repaired and the known defects
@@ -1167,6 +1487,20 @@ def generate(tier, rng, mult):
     yield {"k": "hist", "ops": [["rec", a], ["rec", b], ["rec", c], ["stream"], ["rec", dd], ["pop", -1], ["rec", e], ["stream"]]}  # F4
     yield {"k": "hist", "ops": [["rec", a], ["stream"], ["del", 0], ["rec", b], ["stream"]]}      # F5
     yield {"k": "hist", "ops": [["rec", {"rid": 100001}], ["rec", {"rid": 100002, "a": 1}], ["sel", [], []], ["sel", [], ["gen"]], ["stream"]]}
+    # texts: fixed logbooks whose print exercises every part of `__txt__` (chapters and a sub-chapter with and without
+    # their own header, explicit header with a missing and an unknown column, widths growing between two prints,
+    # None / float / str cells, a chapter named in the header twice)
+    for hist in text_witnesses():
+        yield hist
+    # the Python string functions of the text model
+    for i in range((4000 if thorough else 600) * mult):
+        yield rand_pyfmt(rng, i)
+    # pickling in the middle of a history, continued on the copy and on the original
+    for i in range((6000 if thorough else 500) * mult):
+        yield rand_fork(rng)
+    # str() of logbooks whose chapters are not aligned (model against implementation only)
+    for i in range((6000 if thorough else 500) * mult):
+        yield rand_raw(rng)
     # exhaustive short histories
     maxlen = 5 if thorough else 4
     for chapter in (0, 1, 2):           # no chapter / one chapter / one chapter with a sub-chapter
